@@ -7,6 +7,7 @@
 //!               {fill, remove(1), remove(2), remove(len), remove(len+1)}
 //!   write side: window size {1,2,3} x every sequence of 0..=6 operations over {add(3 bytes), add(0 bytes), add(5 bytes), empty}
 //!   mixed     : six scripted add / remove / empty histories in which the ring buffer wraps, incl. windows of 1100 and 2050 pieces
+//!   errors    : four windows over /dev/full (every write fails): empty() must report the error
 //! exit 1 with a COUNTEREXAMPLE line on a violation.
 use std::collections::VecDeque;
 use std::fs::File;
@@ -192,6 +193,19 @@ fn main() {
                 }
             }
             if w.get_elements() != &buffered { fail(format!("{ctx}: buffer differs from the specification")); }
+        }
+    }
+    // ---- a write error is reported, not swallowed: a window over a device on which every write fails (disk full)
+    if let Ok(full) = std::fs::OpenOptions::new().write(true).open("/dev/full") {
+        for (size, pieces) in [(1u16, vec![8usize]), (3, vec![8, 8, 3]), (16, vec![512; 16]), (4, vec![4096; 4])] {
+            cases += 1;
+            let mut w = Window::new(size, 8, full.try_clone().unwrap());
+            for (i, n) in pieces.iter().enumerate() {
+                if w.add(vec![i as u8; *n]).is_err() { fail(format!("window size {size}: add failed on a window that is not full")); }
+            }
+            if w.empty().is_ok() {
+                fail(format!("window size {size} holding pieces of {:?} bytes over a full device (/dev/full, every write fails with ENOSPC): empty() returned Ok, the write error is lost", pieces));
+            }
         }
     }
     let _ = std::fs::remove_dir_all(&dir);
